@@ -12,6 +12,14 @@ ACTOR = ('idx', MEMBERS, CONN_NICK)
 MSG = ('param', 'msg')
 
 
+def strip_dedup(f):
+    """drop "not selected yet" literals (duplicate suppression on the local victim list)"""
+    for a in atoms(f):
+        if a[0] == 'is' and a[1][0] == 'get' and a[1][1][0] == 'local':
+            f = subst(f, a, False)
+    return f
+
+
 def reply_cond(cx, r, reps, variant, want, fn, key, channel_field=CHN):
     evs = [e for e, x in reps if x['variant'] == variant]
     r.instance('%s condition' % variant)
@@ -60,7 +68,11 @@ def check(cx):
     if not decision:
         r1.violation('process_kick|no-selection', 'process_kick never selects/removes a victim', loc=fk)
     for e in decision:
-        ok, m = equivalent(e.pc, G)
+        f = e.pc
+        for a in atoms(f):
+            if a[0] == 'is' and a[1][0] == 'get' and a[1][1][0] == 'local':
+                f = subst(f, a, False)      # "not selected yet" (duplicate suppression)
+        ok, m = equivalent(f, G)
         if not ok:
             r1.violation('process_kick|selection-formula', 'a user is kicked under a condition that is not (actor member & half-op+, '
                          'victim member, not protected, half-op cannot kick half-op+): %s' % (m,), loc=cx.loc(e.node), found=show(e.pc))
@@ -78,7 +90,7 @@ def check(cx):
     for e in removes:
         if e.data['args'][1:] != [CHN, VIC]:
             r2.violation('process_kick|removal-args', 'removal is not applied to (this channel, selected victim)', loc=cx.loc(e.node))
-        ok, m = entails(e.pc, G)
+        ok, m = entails(strip_dedup(e.pc), G)
         if not ok:
             r2.violation('process_kick|unguarded-removal', 'a member can be removed without the KICK conditions: %s' % model_str(m),
                          loc=cx.loc(e.node))
@@ -104,7 +116,7 @@ def check(cx):
         if s['source'] != CONN_SOURCE or s['payload'] != kick_line:
             r2.violation('process_kick|line-shape', 'KICK line is not ":<actor> KICK <channel> <victim> :<comment|Kicked>"',
                          loc=cx.loc(e.node), found=show_term(s['payload'])[:200])
-        f = e.pc
+        f = strip_dedup(e.pc)
         for a in atoms(f):
             if a == ('is', ('get', MEMBERS, ('elem', ('keys', MEMBERS))), 'Some'):
                 f = subst(f, a, True)
@@ -117,6 +129,9 @@ def check(cx):
 
     # ---- R9.3 robustness of the tail
     r3 = cx.rule('R9.3', 'facts used by the KICK tail still hold', floor=2, kind='obligation')
+    for q in w.events:
+        if q.kind == 'query' and q.data['coll'] == CHANNELS and q.data['key'] == CHN:
+            r3.instance('lookup of the channel (%s) at seq %d' % (q.data['name'], q.seq))
     for e in w.events:
         if e.kind == 'unwrap' and e.data['recv'] == ('get', CHANNELS, CHN):
             r3.instance('channels.get(channel).unwrap()')
@@ -134,7 +149,8 @@ def check(cx):
         if loop:
             src_loops = [l for p in pushes for l in p.loops]
             set_typed = all(_set_typed(prog, l[3]) for l in src_loops) and bool(src_loops)
-            if not set_typed:
+            dedup = bool(pushes) and all(entails(p.pc, Not(has(p.data['local'], p.data['args'][0])))[0] for p in pushes)
+            if not set_typed and not dedup:
                 r3.violation('process_kick|repeated-victim', 'victims are collected in a list built from a list: a repeated name is removed '
                              'twice and the second removal finds no member entry (Channel::remove_* unwrap aborts the handler)',
                              loc=cx.loc(e.node))
